@@ -422,7 +422,7 @@ func runDocument(p docPlan, label string) {
 	caseInfo["layout"] = layoutMode
 	show := func(pd pending) {
 		lf := fonts[pd.f]
-		if layoutMode <= 1 && len(pd.seq.Seq) > 0 {
+		if (layoutMode <= 1 || layoutMode == 4 && e.Rand.IntN(2) == 0) && len(pd.seq.Seq) > 0 {
 			kerned := false
 			for i := range pd.seq.Seq {
 				if e.Rand.IntN(2) == 0 {
@@ -430,8 +430,8 @@ func runDocument(p docPlan, label string) {
 					kerned = true
 				}
 			}
-			if layoutMode == 0 && len(pd.seq.Seq) > 1 {
-				rise := 0.0
+			if layoutMode != 1 && len(pd.seq.Seq) > 1 {
+				rise := []float64{0, 0, 2, -1}[e.Rand.IntN(4)] // also the first glyph may be raised
 				changes := 0
 				for i := range pd.seq.Seq {
 					if i > 0 && e.Rand.IntN(3) == 0 {
@@ -504,7 +504,11 @@ func runDocument(p docPlan, label string) {
 			}
 		}
 		doc.TextSetFont(lf.F, lf.size)
+		before := font.GlyphSeq{Skip: pd.seq.Skip, Seq: append([]font.Glyph(nil), pd.seq.Seq...)}
 		doc.TextShowGlyphs(pd.seq)
+		if before.Skip != pd.seq.Skip || !slices.Equal(before.Seq, pd.seq.Seq) {
+			fail("aliasing:textshowglyphs-changed-sequence", fmt.Sprintf("%s: TextShowGlyphs modified the caller's glyph sequence", lf.k.label), caseInfo)
+		}
 		doc.TextSecondLine(0, -3)
 	}
 	var queue []pending
@@ -569,11 +573,7 @@ func runDocument(p docPlan, label string) {
 				}
 			}
 			retext(lf, shared, nearLimit)
-			before := font.GlyphSeq{Skip: shared.Skip, Seq: append([]font.Glyph(nil), shared.Seq...)}
 			show(pending{fi, shared})
-			if before.Skip != shared.Skip || !slices.Equal(before.Seq, shared.Seq) {
-				fail("aliasing:textshowglyphs-changed-sequence", fmt.Sprintf("%s: TextShowGlyphs modified the caller's glyph sequence", lf.k.label), caseInfo)
-			}
 			for i := range shared.Seq {
 				shared.Seq[i] = font.Glyph{GID: 0, Text: "\x00", Advance: 1e6, Rise: 99}
 			}
